@@ -87,28 +87,70 @@ def all_connected_graphs(n):
     return _ALL_CONN[n]
 
 
-def random_connected_graph(rng, n):
-    """random spanning tree plus extra edges; vertex labels shuffled"""
+FAMILIES = ('path', 'star', 'tree', 'ring', 'grid', 'caterpillar', 'dumbbell', 'complete',
+            'tree+')
+
+
+def random_connected_graph(rng, n, family=None):
+    """a connected graph of one of the FAMILIES (path / star / random tree / ring / grid /
+    caterpillar / two cliques joined by a path / complete / random tree plus random extra
+    edges); vertex labels shuffled.  `family=None`: seeded choice, weighted towards sparse
+    graphs (that is where routing has to work)."""
     if n == 1:
         return []
     lab = list(range(n))
     rng.shuffle(lab)
-    kind = rng.random()
+    if family is None:
+        family = rng.choice(['path', 'path', 'star', 'tree', 'tree', 'tree', 'ring', 'grid',
+                             'caterpillar', 'dumbbell', 'complete', 'tree+', 'tree+', 'tree+'])
     es = set()
-    if kind < 0.25:      # path
+    if family == 'path':
         for i in range(n - 1):
             es.add((lab[i], lab[i + 1]))
-    elif kind < 0.35:    # star
+    elif family == 'star':
         for i in range(1, n):
             es.add((lab[0], lab[i]))
-    else:                # random tree
+    elif family == 'ring':
+        for i in range(n - 1):
+            es.add((lab[i], lab[i + 1]))
+        if n >= 3:
+            es.add((lab[n - 1], lab[0]))
+    elif family == 'grid':
+        cols = rng.choice([c for c in (2, 3, 4) if c <= n])
+        for i in range(n):              # rows of `cols`, the last row may be shorter
+            if (i + 1) % cols and i + 1 < n:
+                es.add((lab[i], lab[i + 1]))
+            if i + cols < n:
+                es.add((lab[i], lab[i + cols]))
+    elif family == 'caterpillar':
+        spine = max(1, n // 2)
+        for i in range(spine - 1):
+            es.add((lab[i], lab[i + 1]))
+        for i in range(spine, n):
+            es.add((lab[i], lab[rng.randrange(spine)]))
+    elif family == 'dumbbell':
+        h = max(1, n // 3)
+        left, right, mid = lab[:h], lab[n - h:], lab[h:n - h]
+        for grp in (left, right):
+            for a, b in it.combinations(grp, 2):
+                es.add((a, b))
+        chain = [left[-1]] + mid + [right[0]]
+        for a, b in zip(chain, chain[1:]):
+            es.add((a, b))
+    elif family == 'complete':
+        for a, b in it.combinations(range(n), 2):
+            es.add((a, b))
+    else:                # random tree (+ extra edges)
         for i in range(1, n):
             es.add((lab[i], lab[rng.randrange(i)]))
-    p = rng.choice([0.0, 0.0, 0.1, 0.3])
-    for a, b in it.combinations(range(n), 2):
-        if rng.random() < p:
-            es.add((a, b))
-    return sorted({tuple(sorted(e)) for e in es})
+        if family == 'tree+':
+            p = rng.choice([0.1, 0.3])
+            for a, b in it.combinations(range(n), 2):
+                if rng.random() < p:
+                    es.add((a, b))
+    es = sorted({tuple(sorted(e)) for e in es if e[0] != e[1]})
+    assert connected(n, es), (family, n, es)
+    return es
 
 
 # ======================================================================
@@ -150,10 +192,27 @@ def gen_circuit(spec):
             c.append_gate(CZ(), p)
         return c
     kinds = spec['kinds']
-    for _ in range(spec['nops']):
-        k = rng.choice(kinds)
+    todo = [(k, None) for k in rng.choices(kinds, k=spec['nops'])] \
+        if not spec.get('ops') else [(k, list(loc)) for k, loc in spec['ops']]
+
+    def entangling_block(m):
+        """a block (CircuitGate) of width m that is NOT made of single-qudit gates only"""
+        sub = Circuit(m, [r] * m)
+        order = list(range(m))
+        rng.shuffle(order)
+        for a, b in zip(order, order[1:]):
+            if r == 2:
+                sub.append_gate(rng.choice([CNOTGate(), CZGate()]), [a, b])
+            else:
+                sub.append_gate(CSUMGate(3), [a, b])
+            if rng.random() < 0.5:
+                sub.append_gate(ConstantUnitaryGate(rand_unitary(nrng, r), [r]), [a])
+        return CircuitGate(sub)
+    for k, xloc in todo:
+        if k in '2345B' and xloc is None and n < 2:
+            k = '1'
         if k == '1':
-            q = [rng.randrange(n)]
+            q = xloc or [rng.randrange(n)]
             if r == 2 and rng.random() < 0.6:
                 if rng.random() < 0.5:
                     c.append_gate(U3Gate(), q, [rng.uniform(-3, 3) for _ in range(3)])
@@ -162,7 +221,7 @@ def gen_circuit(spec):
             else:
                 c.append_gate(ConstantUnitaryGate(rand_unitary(nrng, r), [r]), q)
         elif k == '2' and n >= 2:
-            loc = rng.sample(range(n), 2)
+            loc = xloc or rng.sample(range(n), 2)
             x = rng.random()
             if r == 2 and x < 0.35:
                 c.append_gate(CNOTGate(), loc)
@@ -177,23 +236,33 @@ def gen_circuit(spec):
             else:
                 c.append_gate(ConstantUnitaryGate(rand_unitary(nrng, r * r), [r, r]), loc)
         elif k == '3' and n >= 3:
-            loc = rng.sample(range(n), 3)
+            loc = xloc or rng.sample(range(n), 3)
             if r == 2 and rng.random() < 0.5:
                 c.append_gate(CCXGate(), loc)
             else:
                 c.append_gate(ConstantUnitaryGate(rand_unitary(nrng, r ** 3), [r] * 3), loc)
+        elif k in '45' and (xloc or n >= 2):
+            # a gate on 4 / 5 qudits (on fewer when the circuit is narrower)
+            m = len(xloc) if xloc else min(int(k), n)
+            loc = xloc or rng.sample(range(n), m)
+            c.append_gate(ConstantUnitaryGate(rand_unitary(nrng, r ** m), [r] * m), loc)
+        elif k == 'B' and (xloc or n >= 2):
+            # an entangling block of width 2..5 at an arbitrary (unsorted) location
+            m = len(xloc) if xloc else rng.randint(2, min(n, 5))
+            loc = xloc or rng.sample(range(n), m)
+            c.append_gate(entangling_block(m), loc)
         elif k == 'b' and n >= 2:
-            m = rng.randint(2, min(n, 4))
-            loc = rng.sample(range(n), m)
+            m = len(xloc) if xloc else rng.randint(2, min(n, 5))
+            loc = xloc or rng.sample(range(n), m)
             c.append_gate(BarrierPlaceholder(m, [r] * m), loc)
         elif k == 's' and n >= 2:
             # block made of single-qudit gates only (executable anywhere)
-            m = rng.randint(2, min(n, 3))
+            m = len(xloc) if xloc else rng.randint(2, min(n, 5))
             sub = Circuit(m, [r] * m)
             for q in range(m):
                 if rng.random() < 0.8:
                     sub.append_gate(ConstantUnitaryGate(rand_unitary(nrng, r), [r]), [q])
-            c.append_gate(CircuitGate(sub), rng.sample(range(n), m))
+            c.append_gate(CircuitGate(sub), xloc or rng.sample(range(n), m))
     part = spec.get('partition')
     if part:
         from bqskit.compiler.passdata import PassData
@@ -276,6 +345,7 @@ class Rec:
         self.events = []
         self.pi = None
         self.on = False
+        self.ext_max = 0      # most circuit.next calls in one _calc_extended_set
 
 
 _CUR: Rec | None = None
@@ -312,11 +382,59 @@ def rec_circuit_cls():
     return _REC_CLS
 
 
+class ExtSetBlowup(Exception):
+    """`_calc_extended_set` asked for the successors of more than EXT_BUDGET points in ONE call
+    (the circuits of this harness have at most ~150 operations and the extended set at most 100
+    points): its frontier holds the same points over and over - see design_notes/C09.md, NEW
+    FINDINGS.  Counted, not timed: deterministic."""
+
+
+EXT_BUDGET = int(__import__('os').environ.get('C09_EXT_BUDGET', '100000'))
+
+
+class NextCounter:
+    """stands in for `circuit` inside ONE `_calc_extended_set` call (which only uses
+    `circuit.next`)"""
+
+    def __init__(self, circuit, rec):
+        self._c, self._rec, self.calls = circuit, rec, 0
+
+    def next(self, point):
+        self.calls += 1
+        if self.calls > EXT_BUDGET:
+            self._rec.ext_max = max(self._rec.ext_max, self.calls)
+            raise ExtSetBlowup(f'{self.calls} calls of circuit.next in one _calc_extended_set')
+        return self._c.next(point)
+
+    def __getattr__(self, a):
+        return getattr(self._c, a)
+
+
+def blowup_violation(spec, stage, e, replay):
+    pr = spec.get('lparams' if stage == 'layout' else 'params') or spec['params']
+    return ('extended-set-search-revisits-points-exponentially',
+            f'{stage}: _calc_extended_set(extended_set_size={pr[3]}) needed {e} on a circuit of '
+            f'{len(replay["circuit"])} operations on {spec["n"]} qudits: its frontier is a list '
+            'that receives every successor of every popped point again (no visited set), so '
+            'when fewer than extended_set_size operations lie ahead it walks every PATH of '
+            'the circuit DAG; the pass does not return in practice',
+            replay, True)
+
+
 def instrument(p, rec):
     """wrap the algorithm entry points of pass instance `p` (instance
     attributes shadow the class methods; the code under test is unchanged)"""
     o_fp, o_as, o_ap = p.forward_pass, p._apply_swap, p._apply_perm
     o_bp = p.backward_pass
+    o_ce = p._calc_extended_set
+
+    def ce(circuit, F):
+        nc = NextCounter(circuit, rec)
+        try:
+            return o_ce(nc, F)
+        finally:
+            rec.ext_max = max(rec.ext_max, nc.calls)
+    p._calc_extended_set = ce
 
     def fp(circuit, pi, cg, *a, **k):
         rec.pi = pi
@@ -582,15 +700,57 @@ def make_passes(spec):
         GeneralizedSabreLayoutPass, GeneralizedSabreRoutingPass, GreedyPlacementPass,
         StaticPlacementPass, TrivialPlacementPass,
     )
-    pr = spec['params']
-    kw = dict(decay_delta=pr[0], decay_reset_interval=pr[1], decay_reset_on_gate=pr[2],
-              extended_set_size=pr[3], extended_set_weight=pr[4])
+    kw = params_kw(spec['params'])
+    kwl = params_kw(spec.get('lparams') or spec['params'])
     plc = {'greedy': GreedyPlacementPass, 'trivial': TrivialPlacementPass,
            'static': lambda: StaticPlacementPass(2.0)}.get(spec['placement'])
     placement = plc() if plc else None
-    layout = GeneralizedSabreLayoutPass(spec['layout'], **kw) if spec['layout'] else None
+    layout = GeneralizedSabreLayoutPass(spec['layout'], **kwl) if spec['layout'] else None
     routing = GeneralizedSabreRoutingPass(**kw)
+    if spec.get('adv'):
+        adversarial_heuristic(routing, spec['seed'] + 11, spec['adv'])
+        if layout is not None:
+            adversarial_heuristic(layout, spec['seed'] + 12, spec['adv'])
     return placement, layout, routing
+
+
+def params_kw(pr):
+    return dict(decay_delta=pr[0], decay_reset_interval=pr[1], decay_reset_on_gate=pr[2],
+                extended_set_size=pr[3], extended_set_weight=pr[4])
+
+
+def adversarial_heuristic(p, seed, mode='random'):
+    """Replace the SCORE of a candidate swap (and nothing else) by a seeded random number on
+    the pass instance.  Which swap the heuristic picks is exactly what the Lean machine
+    abstracts (it accepts every swap on an edge), and the theorems hold for every choice; with
+    an uninformed choice the pass regularly makes more than 5*n fruitless swaps in a row, so
+    the 'stuck in a local minimum' branch (un-apply and pop the leading swaps, uphill swaps)
+    runs in small cases, many times per run, from states the real heuristic rarely reaches.
+    forward_pass / backward_pass, _can_exe, _obtain_swaps, _apply_swap, _uphill_swaps, the
+    leading_swaps bookkeeping and the circuit surgery are the unchanged real code."""
+    rnd = random.Random(seed)
+    if mode == 'random':
+        p._score_swap = lambda *a, **k: rnd.random()
+        return
+
+    def stall(circuit, F, pi, D, swap, decay, E):
+        """prefer swaps after which still no front operation is executable: the pass then
+        piles up leading swaps until the local-minimum branch fires (for every gate that
+        needs routing, when the graph has room to wander)"""
+        pi2 = [swap[1] if x == swap[0] else swap[0] if x == swap[1] else x for x in pi]
+        for pt in F:
+            ph = [pi2[q] for q in circuit[pt].location]
+            seen, todo = {ph[0]}, [ph[0]]
+            while todo:
+                v = todo.pop()
+                for u in ph:
+                    if u not in seen and D[v][u] == 1:
+                        seen.add(u)
+                        todo.append(u)
+            if len(seen) == len(ph):
+                return 1.0 + rnd.random()
+        return rnd.random()
+    p._score_swap = stall
 
 
 def run_case(spec):
@@ -658,10 +818,16 @@ def run_case(spec):
         snap['pl5'] = list(data.placement)
         snap['im5'] = list(data.initial_mapping)
         snap['fm5'] = list(data.final_mapping)
+    except ExtSetBlowup as e:
+        res['raised'] = ('ext-set-blowup', stage, str(e))
+        res['ext_max'] = max(rec_l.ext_max, rec_r.ext_max)
+        res['viol'].append(blowup_violation(spec, stage, e, rep()))
+        return res
     except (RuntimeError, ValueError, TypeError, IndexError, KeyError,
             AssertionError) as e:
         raised = (stage, type(e).__name__, str(e)[:200])
     res['raised'] = raised
+    res['ext_max'] = max(rec_l.ext_max, rec_r.ext_max)
     gm = f'{N} ' + ' '.join(f'{a} {b}' for a, b in edges)
     head = ['wf', gm, str(n), ' '.join(map(str, sorted(tab.free))),
             f'{tab.swap_gid} {r}', ' '.join(in_texts),
@@ -709,6 +875,11 @@ def run_case(spec):
     Ptxt = ' '.join(map(str, snap['P']))
     res['lines'].append(' | '.join(head + [Ptxt, lay, ' '.join(moves)]))
     out_texts = [tab.op_text(op) for op in c]
+    res['widths'] = {}
+    for op in c:
+        if op.num_qudits >= 2 and tab.gid(op.gate) not in tab.free \
+                and tab.gid(op.gate) != tab.swap_gid:
+            res['widths'][op.num_qudits] = res['widths'].get(op.num_qudits, 0) + 1
     res['expect'].append(('wf', snap, routed_texts, out_texts))
     res['lines'].append(' | '.join(['wfi'] + head[1:] + [Ptxt, lay, ' '.join(routed_texts)]))
     res['expect'].append(('wfi', snap, routed_texts, out_texts))
@@ -791,7 +962,11 @@ class CaseTimeout(BaseException):
 
 
 CASE_TIMEOUT_S = 300
-LOCK_WAIT_S = 900      # wait for the machine-wide bqskit runtime lock (/work/RUNTIME_LOCK.md)
+# wait for the machine-wide bqskit runtime lock (/work/RUNTIME_LOCK.md).  The quick tier never
+# waits longer than 45 s: the one real-runtime PAM case is then SKIPPED with a coverage note (the
+# same code paths run in-process on fabricated permutation data in every tier).
+LOCK_WAIT_S = {'quick': 45, 'thorough': 900}
+REAL_JOB_S = {'quick': 100, 'thorough': 240}     # limit for one compile() on the real runtime
 
 
 def _run_chunk(specs, limit=None):
@@ -833,10 +1008,25 @@ def _run_chunk(specs, limit=None):
     return out
 
 
-def _bg_chunk(specs, q, lock_wait_s):
+_TO_COUNT = None      # shared counter of cases that hit their time limit (set before forking)
+
+
+def _run_one(spec):
+    if _TO_COUNT is not None and _TO_COUNT.value >= 3:
+        # the tree under test hangs: do not wait for every case
+        return {'spec': spec, 'skipped': 'three earlier cases timed out',
+                'viol': [], 'lines': [], 'expect': [], 'stats': {}}
+    r = _run_chunk([spec])[0]
+    if r.get('timeout') and _TO_COUNT is not None:
+        with _TO_COUNT.get_lock():
+            _TO_COUNT.value += 1
+    return r
+
+
+def _bg_chunk(specs, q, lock_wait_s, job_s=240):
     try:
         from harness.c09_pam import run_real_cases
-        q.put(run_real_cases(specs, lock_wait_s))
+        q.put(run_real_cases(specs, lock_wait_s, job_s))
     except Exception:
         import traceback
         q.put([{'spec': specs[0], 'crash': traceback.format_exc()[-1500:], 'viol': [],
@@ -850,6 +1040,28 @@ PARAMS = [
     (0.001, 5, True, 20, 0.5), (0.0, 5, True, 0, 0.5), (0.1, 1, False, 1, 1.0),
     (0.001, 5, False, 20, 0.0), (0.0, 3, True, 2, 0.5), (0.5, 2, True, 5, 0.25),
 ]
+# every constructor parameter of GeneralizedSabreAlgorithm / PermutationAwareMappingAlgorithm:
+# default, boundary (0.0 / 1 / 0 / False) and far-from-default values
+P_DECAY_DELTA = [0.001, 0.001, 0.0, 0.1, 0.5, 2.0]
+P_RESET_INTERVAL = [5, 5, 1, 2, 3, 50]
+P_RESET_ON_GATE = [True, False]
+P_EXT_SIZE = [20, 20, 0, 1, 2, 5, 100]
+P_EXT_WEIGHT = [0.5, 0.5, 0.0, 0.25, 1.0, 3.0]
+P_GCW = [0.1, 0.3, 0.0, 1.0, 10.0]
+
+
+def rand_params(rng, reset_on_gate=None):
+    if rng.random() < 0.15:
+        pr = list(rng.choice(PARAMS))
+    else:
+        pr = [rng.choice(P_DECAY_DELTA), rng.choice(P_RESET_INTERVAL),
+              rng.choice(P_RESET_ON_GATE), rng.choice(P_EXT_SIZE), rng.choice(P_EXT_WEIGHT)]
+    if reset_on_gate is not None:
+        pr[2] = reset_on_gate
+    return pr
+
+
+SPARSE = ['path', 'star', 'tree', 'tree', 'caterpillar', 'ring', 'grid', 'dumbbell']
 
 
 def gen_specs(rng, thorough):
@@ -865,15 +1077,31 @@ def gen_specs(rng, thorough):
              'radix': 2, 'nops': rng.randint(1, 14), 'kinds': '1222223b',
              'placement': rng.choice(['greedy', 'greedy', 'trivial', 'custom', 'static']),
              'layout': rng.choice([None, 1, 1, 2, 3]),
-             'params': rng.choice(PARAMS), 'partition': None}
-        s.update(kw)
-        if rng.random() < 0.15:
+             'params': rand_params(rng), 'partition': None}
+        s['lparams'] = s['params'] if rng.random() < 0.5 else rand_params(rng)
+        x = rng.random()
+        if x < 0.15:
             s['kinds'] = '1222333bbs'
+        elif x < 0.40 and n >= 4:
+            # operations on 4 and 5 qudits: gates, entangling blocks, wide barriers / free blocks
+            s['kinds'] = rng.choice(['1222345Bbs', '122345BB', '2245B', '12B45'])
         if rng.random() < 0.12 and N <= 4:
             s['radix'] = 3
-            s['kinds'] = '12223b'
+            s['kinds'] = rng.choice(['12223b', '12223b', '1222B4b'])
         if rng.random() < 0.15:
-            s['partition'] = rng.choice([2, 3])
+            s['partition'] = rng.choice([2, 3, 3, 4, 5])
+        s.update(kw)
+        # extended_set_size far above the number of operations ahead makes _calc_extended_set walk
+        # every path of the circuit DAG (known finding, see design notes): such sizes are
+        # combined with short circuits only; two witness cases below keep the finding observed
+        if s['nops'] > 16 or s['partition']:
+            for key in ('params', 'lparams'):
+                if s[key][3] > 20:
+                    same = s['lparams'] is s['params']
+                    s[key] = list(s[key])
+                    s[key][3] = rng.choice([20, 5])
+                    if same:
+                        s['params'] = s['lparams'] = s[key]
         if rng.random() < 0.3:
             a, b = list(range(n)), list(range(n))
             rng.shuffle(a)
@@ -896,23 +1124,74 @@ def gen_specs(rng, thorough):
             else:
                 s['placement'] = 'greedy'
         return s
-    # exhaustive over connected graphs on <= 5 vertices, small circuits
+    # (A) exhaustive over connected graphs on <= 5 vertices, small circuits
     for N in (2, 3, 4, 5):
         gs = all_connected_graphs(N)
         if N == 5 and not thorough:
-            gs = [gs[i] for i in sorted(rng.sample(range(len(gs)), cnt(120)))]
-        reps = 3 if thorough else (2 if N < 5 else 1)
+            gs = [gs[i] for i in sorted(rng.sample(range(len(gs)), cnt(70)))]
+        reps = 3 if thorough else 1
         for es in gs:
             for _ in range(reps):
                 n = rng.randint(2, N)
                 specs.append(mk(n, N, es))
-    # random connected graphs up to 10 vertices, machines larger than the circuit
-    for _ in range(cnt(6000 if thorough else 240)):
+    # (B) every graph family up to 10 vertices, machines larger than the circuit
+    for i in range(cnt(4000 if thorough else 150)):
         N = rng.randint(3, 10)
         n = rng.randint(2, min(N, 8))
-        specs.append(mk(n, N, random_connected_graph(rng, N),
-                        nops=rng.randint(3, 24)))
-    # local-minimum escape (backtracking) on lines, beyond the numeric oracle
+        fam = FAMILIES[i % len(FAMILIES)]
+        s = mk(n, N, random_connected_graph(rng, N, fam), nops=rng.randint(3, 24))
+        s['family'] = fam
+        specs.append(s)
+    # (C) operations on 4 and 5 qudits on sparse machines (where four or five qudits are rarely
+    # connected): wide gates, entangling blocks at unsorted locations, partitioned blocks
+    for i in range(cnt(1500 if thorough else 70)):
+        N = rng.randint(4, 9)
+        n = rng.randint(4, min(N, 7))
+        fam = SPARSE[i % len(SPARSE)]
+        s = mk(n, N, random_connected_graph(rng, N, fam), nops=rng.randint(2, 16),
+               kinds=rng.choice(['2245B', '45B', '122345BBbs', '1222B', '4', '5B']),
+               radix=2, partition=rng.choice([None, None, None, 4, 5]))
+        s['family'] = fam
+        if s['partition']:
+            s['kinds'] = '1222223'
+            s['nops'] = rng.randint(8, 30)
+        specs.append(s)
+    # (D) long circuits (many more than 5*n swaps in total) on tree-like machines; every
+    # parameter, decay_reset_on_gate False as often as True
+    for i in range(cnt(600 if thorough else 36)):
+        n = rng.randint(3, 6)
+        N = rng.randint(n, 8)
+        fam = ['tree', 'path', 'star', 'caterpillar', 'tree', 'ring'][i % 6]
+        s = mk(n, N, random_connected_graph(rng, N, fam), nops=rng.randint(40, 110),
+               kinds=rng.choice(['122223', '12222', '1222234', '12222B']), radix=2,
+               partition=None, params=rand_params(rng, reset_on_gate=bool(i % 2)),
+               placement=rng.choice(['greedy', 'custom', 'trivial']))
+        s['family'] = fam
+        s['long'] = True
+        specs.append(s)
+    # (E) adversarial heuristic: the score of a candidate swap is replaced by a seeded random
+    # number (see adversarial_heuristic): backtracking + uphill swaps in small cases
+    for i in range(cnt(1000 if thorough else 50)):
+        n = rng.randint(3, 6)
+        N = rng.randint(n, 8)
+        fam = SPARSE[i % len(SPARSE)]
+        s = mk(n, N, random_connected_graph(rng, N, fam), nops=rng.randint(3, 30),
+               radix=2, partition=None, params=rand_params(rng, reset_on_gate=bool(i % 2)),
+               placement=rng.choice(['greedy', 'custom', 'static']))
+        if i % 3 == 0 and n >= 4:
+            s['kinds'] = rng.choice(['2245B', '122345B'])
+        s['family'] = fam
+        s['adv'] = 'stall' if (i // 2) % 3 else 'random'
+        specs.append(s)
+    # witnesses of the known finding `extended-set-search-revisits-points-exponentially`
+    for key in ('params', 'lparams'):
+        s = mk(3, 4, [(0, 1), (1, 2), (2, 3)], nops=70, kinds='12222', radix=2, partition=None,
+               placement='greedy', layout=1)
+        s['params'], s['lparams'] = [0.001, 5, True, 20, 0.5], [0.001, 5, True, 20, 0.5]
+        s[key] = [0.001, 5, True, 100, 0.5]
+        s['witness'] = 'ext-set'
+        specs.append(s)
+    # (F) local-minimum escape (backtracking) on lines, beyond the numeric oracle
     for sw, lm in ([(1, 0), (2, 0), (2, 1)] if not thorough else
                    [(1, 0), (2, 0), (2, 1), (3, 2), (3, 0), (1, 1)]):
         n = 2 * (4 + lm) + 4 + sw
@@ -923,21 +1202,34 @@ def gen_specs(rng, thorough):
         s2 = dict(s)
         s2['looping_prefix'] = True
         s2['seed'] = s['seed'] + 1
+        # the circuits are a trap for the STANDARD heuristic (look-ahead on, small decay): keep
+        # that, vary the rest
+        for t in (s, s2):
+            t['params'] = [rng.choice([0.001, 0.0]), rng.choice([5, 3, 50]), t is s,
+                           rng.choice([20, 5]), rng.choice([0.5, 1.0, 0.25])]
         specs.append(s2)
-    # permutation-aware mapping, fabricated exact permutation data
-    for _ in range(cnt(1500 if thorough else 70)):
+    # (G) permutation-aware mapping, fabricated exact permutation data
+    for i in range(cnt(1000 if thorough else 60)):
         N = rng.randint(3, 7)
         n = rng.randint(2, min(N, 5))
         s = mk(n, N, random_connected_graph(rng, N), nops=rng.randint(3, 14),
                kinds='12222', radix=2, partition=None,
                placement=rng.choice(['greedy', 'custom']), layout=rng.choice([None, 1, 2]))
-        s['im0'], s['fm0'] = list(range(n)), list(range(n))
         s.update(radix=2, partition=None, kinds='12222')
         s.update(pam=True, source='fab', block=rng.choice([2, 2, 3]),
-                 gcw=rng.choice([0.0, 0.1, 0.3, 1.0]),
-                 barrier_p=rng.choice([0.0, 0.25, 0.25]))
+                 gcw=rng.choice(P_GCW), barrier_p=rng.choice([0.0, 0.25, 0.25]))
         if s['block'] == 3:
             s['kinds'] = '122223'
+        if i % 10 == 9 and n >= 4:
+            # blocks of width 4 (576 (pre, post) variants per block)
+            s.update(block=4, kinds='12222234', nops=rng.randint(6, 12))
+        if i % 4 == 3:
+            s['long'] = True
+            s['nops'] = rng.randint(30, 60)
+            s['params'] = rand_params(rng, reset_on_gate=False)
+        if i % 5 == 4:
+            s['adv'] = 'stall' if (i // 5) % 2 else 'random'
+            s['nops'] = min(s['nops'], 20)
         specs.append(s)
     # PAM on qutrits (pam.py inserts SwapGate() where sabre.py inserts SwapGate(radix))
     for _ in range(cnt(60 if thorough else 6)):
@@ -960,7 +1252,7 @@ def gen_specs(rng, thorough):
         s.update(pam=True, source='real', block=2, gcw=0.1, barrier_p=0.0)
         specs.append(s)
     # malformed / failing inputs
-    for _ in range(200 if thorough else 30):
+    for _ in range(200 if thorough else 24):
         N = rng.randint(2, 6)
         kind = rng.choice(['small', 'disc', 'trivbad'])
         if kind == 'small':
@@ -1057,9 +1349,13 @@ def run(ck: Check):
     ck.coverage['phase_s'] = {'lean': round(time.time() - t0, 1)}
     rng = ck.rng
     thorough = ck.tier == 'thorough'
+    units_only = False
     if ck.replay_path:
         body = json.loads(open(ck.replay_path).read())
-        specs = [body['replay']['spec']]
+        if 'spec' in body['replay']:
+            specs = [body['replay']['spec']]
+        else:       # a unit-level disagreement: the enumeration is the replay
+            specs, units_only = [], True
     else:
         specs = gen_specs(rng, thorough)
     ck.coverage['rule'] = (
@@ -1075,12 +1371,8 @@ def run(ck: Check):
         + ('all' if thorough else '120 seeded') + ' of the 728 on 5 vertices; '
         'seeded connected graphs on 3..10 vertices')
     nproc = min(8, max(1, (mp.cpu_count() or 2) // 2))
-    chunks = [specs[i::nproc * 4] for i in range(nproc * 4)]
-    chunks = [c for c in chunks if c]
     serial = [sp for sp in specs if sp.get('source') == 'real']
     par = [sp for sp in specs if sp.get('source') != 'real']
-    chunks = [par[i::nproc * 4] for i in range(nproc * 4)]
-    chunks = [c for c in chunks if c]
     # import everything the cases need BEFORE forking (the first case of a worker must not
     # pay for the imports under its time limit)
     import bqskit.compiler  # noqa: F401
@@ -1092,20 +1384,53 @@ def run(ck: Check):
         [sp for sp in par if sp.get('pam')][:1]
     _run_chunk(warm, limit=600)
     ctx = mp.get_context('fork')
+    global _TO_COUNT
+    _TO_COUNT = ctx.Value('i', 0)
     bg = None
+    lock_wait = LOCK_WAIT_S['thorough' if thorough else 'quick']
+    job_s = REAL_JOB_S['thorough' if thorough else 'quick']
+    t_bg = time.time()
     if serial:      # these start their own bqskit runtime; run them beside the pool
         q = ctx.Queue()
-        bg = ctx.Process(target=_bg_chunk, args=(serial, q, LOCK_WAIT_S))
+        bg = ctx.Process(target=_bg_chunk, args=(serial, q, lock_wait, job_s))
         bg.start()
+    unit_dis, explicit = [], []
+
+    def units(pool):
+        from harness.c09_unit import run_units
+        tu = time.time()
+        res_u = run_units(ck, pool, nproc, thorough, [tuple(p) for p in PARAMS] + [
+            tuple(rand_params(rng)) for _ in range(12)])
+        ck.coverage['phase_s']['unit'] = round(time.time() - tu, 1)
+        return res_u
     if len(par) <= 4:
+        if units_only:
+            with ctx.Pool(nproc) as pool:
+                unit_dis, explicit = units(pool)
         results = _run_chunk(par)
     else:
         with ctx.Pool(nproc) as pool:
-            results = [r for ch in pool.map(_run_chunk, chunks) for r in ch]
+            if not ck.replay_path:
+                unit_dis, explicit = units(pool)
+            # long cases first, so that no worker is left alone with them at the end
+            par.sort(key=lambda sp: -(sp['nops'] * (3 if sp.get('adv') else 1)
+                                      + (200 if sp.get('looping') else 0)))
+            results = list(pool.imap(_run_one, par, chunksize=1))
+    # a `_can_exe` answer that contradicts the connectivity oracle: route one operation on that
+    # qudit set (trivial placement, no layout) - a concrete input of the stated property
+    for ex in explicit:
+        sp = {'seed': 1, 'n': ex['N'], 'N': ex['N'], 'edges': ex['edges'], 'radix': 2,
+              'nops': len(ex['ops']), 'kinds': '2', 'ops': ex['ops'], 'placement': 'trivial',
+              'layout': None, 'params': list(PARAMS[0]), 'partition': None,
+              'im0': list(range(ex['N'])), 'fm0': list(range(ex['N'])), 'from_unit': True}
+        results += _run_chunk([sp])
     ck.coverage['phase_s']['pool'] = round(time.time() - t0, 1)
     if bg is not None:
         try:
-            results += q.get(timeout=LOCK_WAIT_S + 200 + 70 * len(serial))
+            # the pool has been running beside it: what is left of lock wait + runtime start +
+            # one limit per job
+            left = lock_wait + 30 + job_s * len(serial) - (time.time() - t_bg)
+            results += q.get(timeout=max(5, left))
         except Exception:
             results += [{'spec': sp, 'skipped': 'bqskit runtime case timed out', 'viol': [],
                          'lines': [], 'expect': [], 'stats': {}} for sp in serial]
@@ -1157,6 +1482,26 @@ def run(ck: Check):
         ck.bump('placement_pass', spec['placement'])
         ck.bump('layout_passes', str(spec['layout']))
         ck.bump('radix', str(spec['radix']))
+        if not spec.get('pam'):
+            ck.bump('graph_family', spec.get('family', 'enumerated' if spec['N'] <= 5
+                                             else 'seeded'))
+        ck.bump('heuristic', f'adversarial({spec["adv"]})' if spec.get('adv') else 'real')
+        pr_, lp_ = spec['params'], spec.get('lparams') or spec['params']
+        for nm, i_ in (('decay_delta', 0), ('decay_reset_interval', 1),
+                       ('decay_reset_on_gate', 2), ('extended_set_size', 3),
+                       ('extended_set_weight', 4)):
+            ck.bump('param_' + nm, str(pr_[i_]))
+            if spec.get('layout'):
+                ck.bump('param_layout_' + nm, str(lp_[i_]))
+        if spec.get('pam'):
+            ck.bump('param_gate_count_weight', str(spec['gcw']))
+            ck.bump('pam_block_size', str(spec['block']))
+        for w_, c_ in (r.get('widths') or {}).items():
+            ck.bump('routed_nonfree_ops_by_width', str(w_), c_)
+        tot_sw = st.get('s', 0)
+        if tot_sw > 5 * spec['n']:
+            ck.bump('runs_with_more_than_5n_swaps',
+                    'decay_reset_on_gate=' + str(spec['params'][2]))
         if spec.get('partition'):
             ck.bump('partitioned_blocks', str(spec['partition']))
         if r.get('raised'):
@@ -1180,8 +1525,15 @@ def run(ck: Check):
         if not r.get('raised'):
             ck.coverage['traces_validated_against_impl'] += 1
         for sig, what, replay, found in r['viol']:
+            ck.bump('cases_by_violation_signature', sig)
             ck.violation(sig, what, replay, found_input=found)
         bad = compare(r, rp)
+        if bad:
+            ck.bump('cases_by_violation_signature', 'model-impl-disagree')
+        if st.get('u', 0):
+            ck.bump('runs_with_backtracking',
+                    'adversarial' if spec.get('adv') else
+                    'local-minimum circuit' if spec.get('looping') else 'real heuristic')
         if bad and not r['viol']:
             ck.violation(
                 'model-impl-disagree:' + bad[0].split(':')[0] + ':' +
@@ -1193,6 +1545,17 @@ def run(ck: Check):
         if len(ck.coverage['samples']) < 4 and not r.get('raised') and r['stats'].get('s'):
             ck.sample({'n': spec['n'], 'N': spec['N'], 'edges': spec['edges'],
                        'moves': r['stats'], 'reply': rp[0][:300]})
+    # unit-level differential: a disagreement is a broken tie of a primitive; the workload above
+    # (and the explicit single-operation cases for _can_exe) was the search for a failing input
+    unit_dis.sort(key=lambda d: len(d.get('arg', [])) != len(set(d.get('arg', []))))
+    for d in unit_dis[:8]:
+        ck.violation(
+            'unit-disagree:' + d['unit'],
+            f'unit-level differential of {d["unit"]}: real code / Lean model / independent '
+            f'statement disagree: ' + json.dumps({k: v for k, v in d.items() if k != 'unit'},
+                                                 default=str)[:400],
+            d, found_input=False)
+    ck.coverage['unit_disagreements'] = len(unit_dis)
     ck.coverage['end_to_end_max_deviation'] = e2e_max
     ck.coverage['pam_variant_max_deviation_fabricated'] = pam_dev
     ck.coverage['pam_variant_max_deviation_synthesised'] = pam_dev_real
